@@ -219,7 +219,11 @@ def load_from_source(
             _maybe_id = file_uri
             base_uri = file_uri
         if isinstance(source, TextIOBase):
-            buf = getattr(source, "buffer")  # type: BufferedIOBase
+            if hasattr(source, "buffer"):
+                buf = getattr(source, "buffer")  # type: BufferedIOBase
+            else:
+                # an in-memory text stream (io.StringIO) has no binary buffer underneath
+                buf = BytesIO(source.read().encode('utf-8'))
             source_as_file = source = buf
         else:
             source_as_file = source
@@ -290,8 +294,8 @@ def load_from_source(
                 # Contains some JSON or XML or Turtle chars, it's not a path
                 source_as_file = None
                 source_as_filename = None
-            elif len(source) >= 32 and '\n' in source[:32]:
-                # Contains a new line near the start of the file, can't be a path
+            elif '\n' in source:
+                # Contains a new line, can't be a path
                 source_as_file = None
                 source_as_filename = None
             elif len(source) < 140:
@@ -328,6 +332,10 @@ def load_from_source(
             or first_char_b == b'['
         ):
             # Contains some JSON or XML or Turtle stuff
+            source_as_file = None
+            source_as_filename = None
+        elif b'\n' in source:
+            # Contains a new line, can't be a path
             source_as_file = None
             source_as_filename = None
         elif len(source) < 140:
@@ -422,11 +430,13 @@ def load_from_source(
                     raise RuntimeError("Attempted to load a HTML document as RDF.")
                 if line.startswith(b"<?xml") or line.startswith(b"<xml") or line.startswith(b"<rdf:"):
                     rdf_format = "xml"
+                # (the line was lower-cased above: compare with lower-case markers)
                 if (
                     line.startswith(b"@prefix ")
-                    or line.startswith(b"PREFIX ")
+                    or line.startswith(b"prefix ")
                     or line.startswith(b"@base ")
-                    or line.startswith(b"# baseURI:")
+                    or line.startswith(b"base ")
+                    or line.startswith(b"# baseuri:")
                 ):
                     rdf_format = "turtle"
             try:
